@@ -543,8 +543,12 @@ func (s *Subscription) removeReference(rid string) {
 	ref := s.refs[rid]
 	ref.count--
 	if ref.count == 0 {
-		s.c.Unsubscribe(ref.sub, false, s.IsSent(), 1, true)
+		// Delete the reference before unsubscribing. Otherwise, if the
+		// referenced subscription refers back to s (or is s itself), tryDelete
+		// would count the removed reference once more, and dispose a
+		// subscription that is still referenced from elsewhere.
 		delete(s.refs, rid)
+		s.c.Unsubscribe(ref.sub, false, s.IsSent(), 1, true)
 	}
 }
 
